@@ -27,5 +27,6 @@ def run(ctx):
         norm_rules.normalize_absint(ctx, prog, "R1", bool(inv))
         norm_rules.selection_order(ctx, prog, "R2")
         norm_rules.type_ranges(ctx, prog, "R3")
+        norm_rules.limit_parse_types(ctx, prog, "R3")
         norm_rules.normalize_value_table(ctx, prog, "R4", "R4")
     ctx.cfg = None
